@@ -22,6 +22,8 @@ CONFIGS = {
     # __AVX2__, __BMI2__ … are compiled and executed; contraction off so that floating-point results stay those of the plain build
     "isa": ["-O1", "-g1", "-march=x86-64-v3", "-ffp-contract=off"] + SAN,
     "rel": ["-O2", "-DNDEBUG"],
+    # OpenMP switched on (code under `#ifdef _OPENMP` / omp pragmas is compiled in); run with OMP_NUM_THREADS=4
+    "omp": ["-O1", "-g1", "-fopenmp"],
     "relbmi2": ["-O2", "-DNDEBUG", "-mbmi2"],
     "tsan": ["-O1", "-g1", "-fsanitize=thread"],
     "syntax": ["-fsyntax-only"],
@@ -68,7 +70,7 @@ def sh(cmd, timeout, cwd=None, input=None, env=None):
     if env:
         e.update(env)
     try:
-        p = subprocess.run(cmd, cwd=cwd, input=input, capture_output=True, text=True, timeout=timeout, env=e)
+        p = subprocess.run(cmd, cwd=cwd, input=input, capture_output=True, text=True, errors="replace", timeout=timeout, env=e)
         return p.returncode, p.stdout, p.stderr
     except subprocess.TimeoutExpired as ex:
         out = ex.stdout.decode(errors="replace") if isinstance(ex.stdout, bytes) else (ex.stdout or "")
